@@ -190,7 +190,30 @@ fn shape_case(ctx: &mut Ctx, rng: &mut Rng, i: u64) {
     } else {
         None
     };
+    // another thread of the caller changes PATH (to a value with a much longer entry, and back) while the launch is
+    // being prepared: whatever value the launch works with, what it prepared before the fork fits what the child does
+    let flipping = use_path && rng.chance(120);
+    let stop_flip = std::sync::Arc::new(std::sync::atomic::AtomicBool::new(false));
+    let flipper = if flipping {
+        ctx.count("launches_while_another_thread_changes_PATH", 1);
+        let (a, stop) = (path_os.clone(), stop_flip.clone());
+        let mut b = OsString::from(format!("/nonexistent/{}:", "F".repeat(rng.range(600, 5000) as usize)));
+        b.push(&path_os);
+        Some(std::thread::spawn(move || {
+            while !stop.load(SeqCst) {
+                std::env::set_var("PATH", &b);
+                std::env::set_var("PATH", &a);
+            }
+            std::env::set_var("PATH", &a);
+        }))
+    } else {
+        None
+    };
     let m = run::monitored(|| Popen::create(&argv, config));
+    stop_flip.store(true, SeqCst);
+    if let Some(h) = flipper {
+        let _ = h.join();
+    }
     match old {
         Some(p) => std::env::set_var("PATH", p),
         None => std::env::remove_var("PATH"),
